@@ -134,6 +134,57 @@ pub fn catalogue(thorough: bool) -> Value {
                               "events": interleave(cmb.iter().map(|x| flight(x, 6)).collect())}));
     }
 
+    // a frame heard by BOTH receivers (one record with two receptions once deduplicated), then surface reports heard by
+    // the second receiver only: each reception must still be decoded against its own receiver's reference
+    {
+        let mut events = vec![];
+        for x in flight(&a, 4) {
+            let mut y = x.clone();
+            y["sensor"] = json!(1);
+            events.push(x);
+            events.push(y);
+        }
+        let mut pause = flight(&c, 6);
+        pause[0]["dt"] = json!(0.5);
+        events.extend(pause);
+        let mut later = flight(&b, 6);
+        later[0]["dt"] = json!(0.1);
+        events.extend(later);
+        scenarios.push(json!({"name": "shared:A(both)+C+B", "group": "positions", "sensors": sensors,
+            "options": {"dedup_ms": 300, "df_filter": null, "aircraft_filter": null, "via": "cli", "rest": true}, "events": events}));
+    }
+
+    // moving aircraft with explicit time stamps (decode1090 only: its input carries the stamps): a wrong pairing of two
+    // reports of a standing aircraft gives the right answer, of a moving one it does not
+    {
+        let fly = |name: &'static str, addr: u32, lat0: f64, lon0: f64, kt: f64, plan: &[(f64, bool)]| -> Vec<Value> {
+            plan.iter().enumerate().map(|(k, (t, odd))| {
+                let lon = lon0 + kt / 3600.0 * t / 60.0 / lat0.to_radians().cos();
+                let (yz, xz, _) = encode(lat0, lon, *odd, false);
+                let me = me_bds05(11, 0, 0, ac12_q(20000 + 25 * k as i32), 0, *odd as u8, yz, xz);
+                let mut e = ev(0, 0.0, &df17(5, addr, &me, 0), "airborne", name, Some((lat0, lon)), json!({"odd": odd}));
+                e["t"] = json!(t);
+                e
+            }).collect()
+        };
+        let plans: Vec<(&str, Vec<(f64, bool)>)> = vec![
+            ("steady", vec![(0.0, false), (0.5, true), (1.0, false), (1.5, true), (2.0, false), (2.5, true)]),
+            ("late-line", vec![(0.0, false), (0.5, true), (1.0, false), (31.0, true), (2.0, false), (32.0, false), (32.5, true)]),
+            ("late-first", vec![(1031.0, false), (1002.0, true), (1032.0, true), (1033.0, false)]),
+            ("gap25", vec![(0.0, false), (25.0, true), (25.5, false), (26.0, true)]),
+            ("gap11-no-fix", vec![(0.0, false), (11.0, true), (22.0, false), (33.0, true), (33.4, false)]),
+            ("stale", vec![(0.0, false), (0.4, true), (200.0, true), (400.0, true), (400.4, false)]),
+            ("same-parity", vec![(0.0, false), (0.5, false), (1.0, false), (9.0, true)]),
+        ];
+        for (pname, plan) in &plans {
+            let m = fly("M", 0x4b1a11, 44.0, 2.0, 600.0, plan);
+            let n = fly("N", 0x4b1a12, 43.2, 0.9, 450.0, plan);
+            scenarios.push(json!({"name": format!("solo:M:{pname}"), "group": "moving", "sensors": sensors, "options": plain, "events": m}));
+            scenarios.push(json!({"name": format!("solo:N:{pname}"), "group": "moving", "sensors": sensors, "options": plain, "events": n}));
+            scenarios.push(json!({"name": format!("mix:M+N:{pname}"), "group": "moving", "sensors": sensors, "options": plain, "events": interleave(vec![m, n])}));
+        }
+    }
+
     // --- C07 / C11 / C12: one record of every address-carrying format and of the main message kinds
     let mut kinds: Vec<Value> = vec![];
     let addrs = [0x4b1a01u32, 0x000001, 0xfffffe, 0x06a153];
@@ -155,6 +206,10 @@ pub fn catalogue(thorough: bool) -> Value {
         }
         kinds.push(ev(0, 0.0, &df20_21(20, 0, 0, 0, ac13_q(11000 + 100 * i as i32), &mb_bds20(&cs_codes(&format!("CMB{i:03}"))), ad), "df20:bds20", "K", None, json!({"callsign": format!("CMB{i:03}")})));
         kinds.push(ev(0, 0.0, &df20_21(21, 0, 0, 0, id13(2, 1 + i8_, 0, 0), &[0u8; 7], ad), "df21:empty", "K", None, json!({})));
+        // a Comm-B payload that reads both as BDS 5,0 (322 kt on track 250.5) and as BDS 6,0 - the one of the repository's
+        // own test - right after an ADS-B velocity that agrees with the 5,0 reading
+        kinds.push(ev(0, 0.0, &df17(5, ad, &me_bds09_gs(1, 0, 0, 0, 1, 305, 1, 109, 0, 0, 11, 0, 5), 0), "df17:velocity", "K", None, json!({})));
+        kinds.push(ev(0, 0.0, &df20_21(21, 0, 0, 0, id13(3, 1 + i8_, 1, 1), &[0xff, 0xfb, 0x23, 0x28, 0x60, 0x04, 0xa7], ad), "df21:bds50+60", "K", None, json!({})));
         kinds.push(ev(0, 0.0, &df20_21(20, 0, 0, 0, ac13_q(30000), &mb_bds40(Some(1875 + i as u32), Some(1875 + i as u32), Some(2663), None, None), ad), "df20:bds40", "K", None, json!({})));
     }
     // receptions that do not decode: a squitter with a damaged parity field, a truncated squitter
